@@ -78,35 +78,43 @@ def run(ctx):
 
 
 def nonce_setters_replace(ctx, rule='nonce-setters-replace'):
-    """a renewal re-uses the same SecureChannel object: set_local_nonce / set_remote_nonce must REPLACE the stored nonce with
-    their argument (clear, then extend with the whole argument - or assign), otherwise the second key derivation on one side
-    uses old||new while the peer uses new, and every message after the first renewal is refused"""
+    """a renewal re-uses the same SecureChannel object: whoever writes local_nonce / remote_nonce must REPLACE the stored nonce
+    (assign it, or clear it and then extend it with one whole value), otherwise the second key derivation on one side uses
+    old||new while the peer uses new, and every message after the first renewal is refused.  Every function of the crate that
+    writes one of the two fields is examined (who-may-write), not a list of setter names.  Shared with C13."""
     r, db = ctx.r, ctx.db
     n = 0
-    for fn, fld, arg in (('set_local_nonce', '.local_nonce', 'local_nonce'), ('set_remote_nonce', '.remote_nonce', 'remote_nonce')):
-        b = db.body(SC + '::' + fn)
-        if b is None:
-            r.lost(rule, fn, 'SecureChannel::%s not found' % fn); continue
-        F = ctx.facts(b)
-        n += 1
-        muts = [(c, c.callee.rsplit('::', 1)[-1]) for c in b.calls() if c.args and fmt_sym(b, F.sym_operand(c.args[0])).endswith(fld)]
-        names = [m for c, m in muts]
-        assigns = [st for blk in b.blocks for st in blk['s'] if st[0] == '=' and st[1][1] and st[1][1][-1] == fld]
-        ok = False
-        if assigns and not muts:
-            ok = True
-        elif names == ['clear', 'extend_from_slice']:
-            c0, c1 = muts[0][0], muts[1][0]
-            a = fmt_sym(b, F.sym_operand(c1.args[1]))
-            ps = b.local_by_name(arg)
-            ok = b.dominates(c0.bb, c1.bb) and ps and a in ('&(*%s(_%d))' % (arg, ps[0]), '%s(_%d)' % (arg, ps[0]))
-        if ok:
-            r.ok(rule, fn, '%s replaces the stored nonce with its argument' % fn, loc=b.loc)
-        else:
-            r.fail(rule, fn, 'SecureChannel::%s does not replace the stored nonce (operations on %s: %s): after a renewal the two sides derive keys from different nonces'
-                   % (fn, fld[1:], names or 'assignment'), loc=b.loc)
+    MUT = re.compile(r'Vec::(push|extend_from_slice|extend|append|insert|truncate|resize|clear|drain|retain|remove|pop|copy_from_slice|clone_from)$|Extend::extend$')
+    for b in db.find_bodies_mentioning(r'^core::comms::secure_channel::', '_nonce'):
+        if re.search(r'::tests?::', b.path) or re.search(r'::(new|default|clone)$', b.path):
+            continue
+        F = None
+        for fld in ('.local_nonce', '.remote_nonce'):
+            F = F or ctx.facts(b)
+            muts = [(c, c.callee.rsplit('::', 1)[-1]) for c in b.calls() if c.args and MUT.search(c.callee) and re.search(r'\(\*self\(_1\)\)' + re.escape(fld) + '$', fmt_sym(b, F.sym_operand(c.args[0])))]
+            assigns = [(bi, st) for bi, blk in enumerate(b.blocks) if not blk['c'] for st in blk['s'] if st[0] == '=' and st[1][0] == 1 and st[1][1] and st[1][1][-1] == fld]
+            assigns += [(bi, None) for bi, blk in enumerate(b.blocks) if not blk['c'] and blk['t'][0] == 'call' and blk['t'][3][0] == 1 and blk['t'][3][1] and blk['t'][3][1][-1] == fld]
+            if not muts and not assigns:
+                continue
+            n += 1
+            key = '%s:%s' % (b.path.rsplit('::', 1)[-1], fld[1:])
+            names = [m for c, m in muts]
+            ok = False
+            if not muts:
+                ok = True
+            elif names == ['clear', 'extend_from_slice'] or names == ['clear', 'extend']:
+                ok = b.dominates(muts[0][0].bb, muts[1][0].bb) and muts[0][0].bb != muts[1][0].bb
+            elif names == ['resize']:
+                # set to the exact length, then every byte overwritten by the random generator
+                fills = [c for c in b.calls() if c.callee.endswith('random::bytes') and c.args and re.search(r'\(\*self\(_1\)\)' + re.escape(fld) + r'\)?$', fmt_sym(b, F.sym_operand(c.args[0])))]
+                ok = len(fills) == 1 and b.dominates(muts[0][0].bb, fills[0].bb)
+            if ok:
+                r.ok(rule, key, '%s replaces the stored nonce' % b.path.rsplit('::', 1)[-1], loc=b.loc)
+            else:
+                r.fail(rule, key, 'SecureChannel::%s does not replace the stored nonce (operations on %s: %s): after a renewal the two sides derive keys from different nonces'
+                       % (b.path.rsplit('::', 1)[-1], fld[1:], names), loc=muts[0][0].loc)
     r.count('nonce_setters', n)
-    r.floor(rule, 'nonce_setters', n, 2)
+    r.floor(rule, 'nonce_setters', n, 4)
 
 
 def renew_serialised(ctx, rule='renew-serialised'):
